@@ -12,3 +12,4 @@ pub mod byterun;
 pub mod c12;
 pub mod c19;
 pub mod c20;
+pub mod lst;
